@@ -176,9 +176,6 @@ func checkParseInner(c ParseCase) (v *Violation, f parseFacts) {
 		if o.Panic != "" {
 			return violf("Query with accepted path %q on %v panicked: %s", in, doc, o.Panic), f
 		}
-		if o.Class == EInvalid {
-			return violf("Query with accepted path %q on %v returned ErrInvalid: %v", in, doc, o.Err), f
-		}
 	}
 	return nil, f
 }
